@@ -71,6 +71,9 @@ CASES = [
   ('find: path halving instead of full compression (data[i] = root -> data[i] = data[next])', 'mahotas/_labeled.cpp', ('        data[i] = root;\n        i = next;', '        data[i] = data[next];\n        i = next;'), 'UnionFind', 'break'),
   ('join: data[i] = j -> data[j] = i (union direction)', 'mahotas/_labeled.cpp', ('    assert(j >= 0);\n    data[i] = j;', '    assert(j >= 0);\n    data[j] = i;'), 'UnionFind', 'break'),
   ('join: second find on the original j moved first', 'mahotas/_labeled.cpp', ('    i = find(data, i);\n    j = find(data, j);', '    j = find(data, j);\n    i = find(data, i);'), 'UnionFind', 'break'),
+  ('fast path row clamp: (y + dy) >= Ny -> (y + dy) > Ny (row Ny read)', 'mahotas/_morph.cpp', ('if ((y + dy) >= Ny) {', 'if ((y + dy) > Ny) {'), 'FastRow', 'break'),
+  ('fast path row clamp: dy = -y+(Ny-1) -> dy = Ny-1-y (same value)', 'mahotas/_morph.cpp', ('dy = -y+(Ny-1);', 'dy = Ny-1-y;'), 'FastRow', 'pass'),
+  ('fast path: n = Nx - t_abs(dx) -> Nx - dx (wrong for dx < 0)', 'mahotas/_morph.cpp', ('numpy::index_type n = Nx - t_abs(dx);', 'numpy::index_type n = Nx - dx;'), 'FastRow', 'break'),
   ('lbp map: v < min -> v <= min (equivalent)', 'mahotas/features/_lbp.cpp', ('if (v < min) min = v;', 'if (v <= min) min = v;'), 'Lbp', 'pass'),
 ]
 only = sys.argv[1:] 
